@@ -26,6 +26,7 @@ SHAPES = {
     2: dict(N1=16, Net2Lo=0, Net2Hi=7, HostA=2, RouterA=9),
     3: dict(N1=256, Net2Lo=128, Net2Hi=255, HostA=129, RouterA=1),
     4: dict(N1=256, Net2Lo=64, Net2Hi=127, HostA=70, RouterA=254),
+    5: dict(N1=512, Net2Lo=384, Net2Hi=511, HostA=385, RouterA=1),     # home /23: offsets 255 / 256 are ordinary host addresses
 }
 MODES = ["secondary", "primary", "nice"]
 FIXED = []        # set by run_family / replay from the known-findings files
@@ -135,7 +136,9 @@ def random_script(rng, shape, length):
     clients = ["c%d" % i for i in rng.sample(range(1, 7), ncl)]
     cross = rng.random() < 0.15             # a client id shows up from a second MAC
     special = [n1 - 1, 0, lo2, hi2, host, router, EXT, EXT + 1, min(n1 - 2, lo2 + 2), rng.randrange(1, n1 - 1), rng.randrange(1, n1 - 1)]
-    xids = ["x1", "x2", "x3"]
+    if n1 > 256:
+        special += [255, 256, n1 - 1, 0, n1 - 2]          # x.y.0.255 / x.y.1.0 inside the LAN, true broadcast / network
+    xids = ["x1", "x2", "x3", "x4"]
     out = []
 
     def addr(k, none_p=0.2):
@@ -191,10 +194,10 @@ def random_script(rng, shape, length):
             if a >= n1:
                 a = rng.randrange(1, n1 - 1)
             out.append({"a": "foreign", "m": rng.choice(clients + ["stranger"]), "ip": a, "ips": sy})
-        elif x < 0.985:
+        elif x < 0.98:
             out.append({"a": "purge"})
         else:
-            out.append({"a": "restart"})
+            out.append({"a": rng.choice(["restart", "restart", "reload", "reload", "reconf"])})
     return out
 
 
@@ -209,13 +212,26 @@ def lifecycle_script(rng, shape, length):
     out = []
     xid = {}
 
+    lo2, hi2 = s["Net2Lo"], s["Net2Hi"]
+    other = [a for a in (lo2 + 2, hi2 - 1, max(2, lo2 - 2), 255, 256, n1 - 1, 0) if 0 <= a < n1]
+
+    def toggle(k):
+        # a capture / release of the client's MAC may fall between any two of its messages
+        if rng.random() < 0.12:
+            out.append({"a": rng.choice(["capture", "uncapture"]), "m": k})
+
     def dora(k, m=None, prl="none", stale_xid=False):
         m = m or k
-        x = rng.choice(["x1", "x2", "x3"])
+        x = rng.choice(["x1", "x2", "x3", "x4"])
         xid[k] = x
-        req = (NOA, "lit") if rng.random() < 0.6 else (NOA, "ip:" + k)
+        u = rng.random()
+        req = (NOA, "lit") if u < 0.5 else (NOA, "ip:" + k) if u < 0.8 else (rng.choice(other), "lit")
         out.append({"a": "discover", "k": k, "m": m, "req": req[0], "reqs": req[1], "xid": x, "prl": prl})
-        x2 = rng.choice([y for y in ["x1", "x2", "x3"] if y != x]) if stale_xid else x
+        toggle(m)
+        if rng.random() < 0.15:                                           # retransmitted DISCOVER
+            out.append({"a": "discover", "k": k, "m": m, "req": req[0], "reqs": req[1], "xid": x, "prl": prl})
+            toggle(m)
+        x2 = rng.choice([y for y in ["x1", "x2", "x3", "x4"] if y != x]) if stale_xid else x
         out.append({"a": "request", "k": k, "m": m, "sid": "us", "ropt": NOA, "ropts": "offer:" + k, "ci": NOA, "cis": "lit",
                     "srck": "zero", "xid": x2, "prl": prl})
 
@@ -252,7 +268,7 @@ def lifecycle_script(rng, shape, length):
             out.append({"a": "request", "k": k, "m": k, "sid": "us", "ropt": NOA, "ropts": "offer:" + k, "ci": NOA, "cis": "lit",
                         "srck": "zero", "xid": xk, "prl": "none"})
             if rng.random() < 0.5:
-                out.append({"a": "restart"})
+                out.append({"a": rng.choice(["restart", "reload"])})
         elif x < 0.48:
             out.append({"a": "request", "k": k, "m": k, "sid": "none", "ropt": NOA, "ropts": "ip:" + k, "ci": NOA, "cis": "lit",
                         "srck": "zero", "xid": rng.choice(["x1", "x2"]), "prl": "none"})   # INIT-REBOOT for the old address
@@ -265,7 +281,7 @@ def lifecycle_script(rng, shape, length):
         elif x < 0.72:
             out.append({"a": "tick", "far": rng.random() < 0.45})
         elif x < 0.82:
-            out.append({"a": "restart"})
+            out.append({"a": rng.choice(["restart", "restart", "restart", "reload", "reload", "reload", "reconf"])})
         elif x < 0.87:
             j = rng.choice(pool)
             if j != k:
@@ -617,6 +633,8 @@ def plan(ctx, check):
     core = dict(special=(), foreign=(), prls=("none",), maxtog=2, maxtick=1, maxenv=0)
     xmac = dict(special=(3,), foreign=(), prls=("none",), maxtog=0, maxtick=1, maxenv=0, clients="ClientsAll")   # any client id from any MAC
     low = dict(special=(15, 9), foreign=(), prls=("none",), maxtog=2, maxtick=0, maxenv=0)                         # netfilter = lower half of the LAN
+    solo = dict(ncid=1, special=(6, 3), foreign=(), prls=("none",), maxtog=3, maxtick=1, maxenv=2, restart=True)  # one client, deep: retransmissions,
+    # capture toggles between any two messages, restart / reload / changed configuration
     p = []
     if q:
         p.append(dict(kind="mc", label="mc-wide-secondary-d4", shape=0, mode="secondary", depth=4, kw=wide, every=16, fail_every=8))
@@ -624,6 +642,7 @@ def plan(ctx, check):
         p.append(dict(kind="mc", label="mc-core-nice-d5", shape=0, mode="nice", depth=5, kw=core, every=16, fail_every=8))
         p.append(dict(kind="mc", label="mc-xmac-secondary-d3", shape=0, mode="secondary", depth=3, kw=dict(xmac, special=(3, 7), maxtog=1), every=2, fail_every=1))
         p.append(dict(kind="mc", label="mc-lower-nice-d4", shape=2, mode="nice", depth=4, kw=low, every=12, fail_every=6))
+        p.append(dict(kind="mc", label="mc-solo-nice-d7", shape=0, mode="nice", depth=7, kw=solo, every=16, fail_every=8))
         p.append(dict(kind="sim", label="sim-full-primary-d10", shape=0, mode="primary", depth=10, num=300, kw=dict(full, ncid=3)))
         p.append(dict(kind="rand", n=90, length=30))
         p.append(dict(kind="life", n=240, length=30))
@@ -637,6 +656,8 @@ def plan(ctx, check):
         p.append(dict(kind="mc", label="mc-3cl-primary-d4", shape=0, mode="primary", depth=4, kw=dict(wide, ncid=3), every=20, fail_every=10))
         p.append(dict(kind="mc", label="mc-xmac-secondary-d5", shape=0, mode="secondary", depth=5, kw=xmac, every=40, fail_every=20))
         p.append(dict(kind="mc", label="mc-lower-nice-d5", shape=2, mode="nice", depth=5, kw=low, every=40, fail_every=20))
+        p.append(dict(kind="mc", label="mc-solo-nice-d8", shape=0, mode="nice", depth=8, kw=solo, every=60, fail_every=30))
+        p.append(dict(kind="mc", label="mc-solo-primary-d7", shape=0, mode="primary", depth=7, kw=solo, every=30, fail_every=15))
         for mode in MODES:
             p.append(dict(kind="sim", label="sim-full-%s-d14" % mode, shape=0, mode=mode, depth=14, num=800, kw=dict(full, ncid=3)))
         p.append(dict(kind="rand", n=1200, length=40))
@@ -704,7 +725,7 @@ def run_family(ctx, check, plan_fn=None):
                 hs.append(cex[0])
             groups.append(Group(it["label"], it["shape"], [0, 1], it["mode"], hs))
         elif it["kind"] == "rand":
-            shapes = (3, 4) if ctx.quick else (2, 3, 4)
+            shapes = (3, 5) if ctx.quick else (2, 3, 4, 5)
             per = max(1, it["n"] // (3 * len(shapes)))
             for shape in shapes:
                 for mode in MODES:
@@ -712,7 +733,7 @@ def run_family(ctx, check, plan_fn=None):
                                         [random_script(rng, shape, it["length"]) for _ in range(per)]))
         else:
             # client life cycles on every prefix configuration and mode; a third of them with one reused receive buffer
-            shapes = (0, 2) if ctx.quick else (0, 2, 3, 4)
+            shapes = (0, 2, 5) if ctx.quick else (0, 2, 3, 4, 5)
             per = max(1, it["n"] // (3 * len(shapes)))
             for shape in shapes:
                 for mode in MODES:
